@@ -6,7 +6,9 @@ From GT Require Import Base.UTree Spec.Obs Model.Reroot Model.Index Model.HashMa
      Proofs.IndexBase Proofs.IndexTree Proofs.IndexSplit Proofs.HashMap Proofs.EdgeIndex Proofs.Quartet
      Proofs.Unroot Proofs.IndexEdit.
 From GT Require Import Model.Prune Model.Collapse Model.LocalEdit Model.NNI Model.Outgroup Model.Compare Model.BitsetWords
-     Proofs.Prune Proofs.QuartetEquiv Proofs.IndexEditOps Proofs.IndexCommon Proofs.BitsetWords.
+     Proofs.Prune Proofs.QuartetEquiv Proofs.IndexEditOps Proofs.IndexCommon Proofs.BitsetWords
+     Proofs.IndexEditDeg.
+From GT Require Model.History Proofs.History Proofs.IndexHistory.
 Import ListNotations.
 Local Close Scope Q_scope.
 Local Open Scope string_scope.
@@ -172,13 +174,13 @@ Theorem hashmap_refines :
     (forall a b, ok a -> ok b -> eqb a b = true -> eqb b a = true) ->
     (forall a b c, ok a -> ok b -> ok c -> eqb a b = true -> eqb b c = true -> eqb a c = true) ->
     (forall a b, ok a -> ok b -> eqb a b = true -> hash a = hash b) ->
-    forall (cap : N) (ops : list (op K V)) (rs : list (ores V)) (mf : hmap K V),
+    forall (cap : N) (ops : list (Model.HashMap.op K V)) (rs : list (Model.HashMap.ores V)) (mf : hmap K V),
       (cap < W64)%N ->
       ops_ok K V ok ops ->
-      run K V hash eqb need (new_hashmap K V cap) ops = Some (rs, mf) ->
-      rs = fst (run_assoc K V eqb [] ops) /\
-      Permutation (key_values K V mf) (snd (run_assoc K V eqb [] ops)) /\
-      hm_total mf = length (snd (run_assoc K V eqb [] ops)).
+      Model.HashMap.run K V hash eqb need (new_hashmap K V cap) ops = Some (rs, mf) ->
+      rs = fst (Model.HashMap.run_assoc K V eqb [] ops) /\
+      Permutation (key_values K V mf) (snd (Model.HashMap.run_assoc K V eqb [] ops)) /\
+      hm_total mf = length (snd (Model.HashMap.run_assoc K V eqb [] ops)).
 Proof. exact Proofs.HashMap.hashmap_refines_gen. Qed.
 Print Assumptions hashmap_refines.
 
@@ -188,9 +190,9 @@ Theorem hashmap_total :
     (forall a b, ok a -> ok b -> eqb a b = true -> eqb b a = true) ->
     (forall a b c, ok a -> ok b -> ok c -> eqb a b = true -> eqb b c = true -> eqb a c = true) ->
     (forall a b, ok a -> ok b -> eqb a b = true -> hash a = hash b) ->
-    forall (cap : N) (ops : list (op K V)),
+    forall (cap : N) (ops : list (Model.HashMap.op K V)),
       (cap < W64)%N -> ops_ok K V ok ops -> no_overflow need ->
-      run K V hash eqb need (new_hashmap K V cap) ops <> None.
+      Model.HashMap.run K V hash eqb need (new_hashmap K V cap) ops <> None.
 Proof. exact Proofs.HashMap.hashmap_total_gen. Qed.
 Print Assumptions hashmap_total.
 
@@ -255,7 +257,7 @@ Print Assumptions quartet_former_witness.
 Example quartet_map_example :
   let need := fun (_ : nat) (_ : N) => false in
   let ops := [OPut (mkQ 0 1 2 3) 7%Z; OValue (mkQ 2 3 0 1)] in
-  exists mf, run quartet Z q_hash_code q_hash_equals need (new_hashmap quartet Z 256) ops = Some ([RPut; RValue (Some 7%Z)], mf).
+  exists mf, Model.HashMap.run quartet Z q_hash_code q_hash_equals need (new_hashmap quartet Z 256) ops = Some ([RPut; RValue (Some 7%Z)], mf).
 Proof. exact Proofs.Quartet.quartet_map_example. Qed.
 Print Assumptions quartet_map_example.
 
@@ -352,68 +354,68 @@ Print Assumptions q_hash_equals_equivalence.
 
 (** a HashMap keyed by quartets (IndexQuartets) behaves like the association list *)
 Theorem quartet_map_refines :
-  forall (V : Type) (need : nat -> N -> bool) (cap : N) (ops : list (op quartet V)) rs mf,
+  forall (V : Type) (need : nat -> N -> bool) (cap : N) (ops : list (Model.HashMap.op quartet V)) rs mf,
     (cap < W64)%N ->
     ops_ok quartet V q_distinct ops ->
-    run quartet V q_hash_code q_hash_equals need (new_hashmap quartet V cap) ops = Some (rs, mf) ->
-    rs = fst (run_assoc quartet V q_hash_equals [] ops) /\
-    Permutation (key_values quartet V mf) (snd (run_assoc quartet V q_hash_equals [] ops)) /\
-    hm_total mf = length (snd (run_assoc quartet V q_hash_equals [] ops)).
+    Model.HashMap.run quartet V q_hash_code q_hash_equals need (new_hashmap quartet V cap) ops = Some (rs, mf) ->
+    rs = fst (Model.HashMap.run_assoc quartet V q_hash_equals [] ops) /\
+    Permutation (key_values quartet V mf) (snd (Model.HashMap.run_assoc quartet V q_hash_equals [] ops)) /\
+    hm_total mf = length (snd (Model.HashMap.run_assoc quartet V q_hash_equals [] ops)).
 Proof. exact Proofs.QuartetEquiv.quartet_map_refines. Qed.
 Print Assumptions quartet_map_refines.
 
 Theorem quartet_map_total :
-  forall (V : Type) (need : nat -> N -> bool) (cap : N) (ops : list (op quartet V)),
+  forall (V : Type) (need : nat -> N -> bool) (cap : N) (ops : list (Model.HashMap.op quartet V)),
     (cap < W64)%N -> ops_ok quartet V q_distinct ops -> no_overflow need ->
-    run quartet V q_hash_code q_hash_equals need (new_hashmap quartet V cap) ops <> None.
+    Model.HashMap.run quartet V q_hash_code q_hash_equals need (new_hashmap quartet V cap) ops <> None.
 Proof. exact Proofs.QuartetEquiv.quartet_map_total. Qed.
 Print Assumptions quartet_map_total.
 
 (** ** after the colleagues' editing operations: the result is a good tree, hence
     [tables_describe]: ReinitIndexes succeeds on it and every row describes its branch.
-    "2 <= degree t'" is a hypothesis where the operation's theorems do not give the degree of
-    the new root. *)
+    No hypothesis on the degree of the new root is left: RemoveTips needs two tips left,
+    SubTree a node with two children (both necessary). *)
 Theorem good_tables : forall t, good t -> tables_describe t.
 Proof. exact Proofs.IndexEditOps.good_tables. Qed.
 Print Assumptions good_tables.
 
 Theorem remove_tips_tables : forall revert names t t',
-    good t -> no_single t = true -> remove_tips revert names t = Ok t' -> 2 <= degree t' ->
+    good t -> no_single t = true -> remove_tips revert names t = Ok t' -> 2 <= length (leaves t') ->
     good t' /\ tables_describe t' /\ Permutation (leaves t') (filter (kept revert names) (leaves t)).
-Proof. exact Proofs.IndexEditOps.remove_tips_tables. Qed.
+Proof. exact Proofs.IndexEditDeg.remove_tips_tables'. Qed.
 Print Assumptions remove_tips_tables.
 
 Theorem remove_edges_tables : forall rr rt sel t,
-    good t -> 2 <= degree (remove_edges rr rt sel t) ->
+    good t ->
     good (remove_edges rr rt sel t) /\ tables_describe (remove_edges rr rt sel t) /\
     Permutation (leaves (remove_edges rr rt sel t)) (leaves t).
-Proof. exact Proofs.IndexEditOps.remove_edges_tables. Qed.
+Proof. exact Proofs.IndexEditDeg.remove_edges_tables'. Qed.
 Print Assumptions remove_edges_tables.
 
 Theorem collapse_len_tables : forall l rr rt t,
-    good t -> 2 <= degree (collapse_len l rr rt t) ->
+    good t ->
     good (collapse_len l rr rt t) /\ tables_describe (collapse_len l rr rt t) /\
     Permutation (leaves (collapse_len l rr rt t)) (leaves t).
-Proof. exact Proofs.IndexEditOps.collapse_len_tables. Qed.
+Proof. exact Proofs.IndexEditDeg.collapse_len_tables'. Qed.
 Print Assumptions collapse_len_tables.
 
 Theorem collapse_sup_tables : forall s rr t,
-    good t -> 2 <= degree (collapse_sup s rr t) ->
+    good t ->
     good (collapse_sup s rr t) /\ tables_describe (collapse_sup s rr t) /\
     Permutation (leaves (collapse_sup s rr t)) (leaves t).
-Proof. exact Proofs.IndexEditOps.collapse_sup_tables. Qed.
+Proof. exact Proofs.IndexEditDeg.collapse_sup_tables'. Qed.
 Print Assumptions collapse_sup_tables.
 
 Theorem collapse_depth_tables : forall mn mx rr rt t t',
-    good t -> collapse_depth mn mx rr rt t = Ok t' -> 2 <= degree t' ->
+    good t -> collapse_depth mn mx rr rt t = Ok t' ->
     good t' /\ tables_describe t' /\ Permutation (leaves t') (leaves t).
-Proof. exact Proofs.IndexEditOps.collapse_depth_tables. Qed.
+Proof. exact Proofs.IndexEditDeg.collapse_depth_tables'. Qed.
 Print Assumptions collapse_depth_tables.
 
 Theorem resolve_tables : forall t cs,
-    good t -> 2 <= degree (resolve t cs) ->
+    good t ->
     good (resolve t cs) /\ tables_describe (resolve t cs) /\ Permutation (leaves (resolve t cs)) (leaves t).
-Proof. exact Proofs.IndexEditOps.resolve_tables. Qed.
+Proof. exact Proofs.IndexEditDeg.resolve_tables'. Qed.
 Print Assumptions resolve_tables.
 
 Theorem remove_single_tables : forall t,
@@ -423,8 +425,8 @@ Proof. exact Proofs.IndexEditOps.remove_single_tables. Qed.
 Print Assumptions remove_single_tables.
 
 Theorem clone_tables : forall t,
-    good t -> 2 <= degree (clone t) -> good (clone t) /\ tables_describe (clone t) /\ leaves (clone t) = leaves t.
-Proof. exact Proofs.IndexEditOps.clone_tables. Qed.
+    good t -> good (clone t) /\ tables_describe (clone t) /\ leaves (clone t) = leaves t.
+Proof. exact Proofs.IndexEditDeg.clone_tables'. Qed.
 Print Assumptions clone_tables.
 
 Theorem merge_tables : forall t1 t2 t' i1 i2,
@@ -436,23 +438,23 @@ Print Assumptions merge_tables.
 
 Theorem graft_tables : forall t g t' idx tip,
     good t -> good g -> (forall x, In x (leaves t) -> In x (leaves g) -> False) ->
-    graft t idx tip g = Ok t' -> 2 <= degree t' ->
+    graft t idx tip g = Ok t' ->
     good t' /\ tables_describe t' /\ Permutation (leaves t' ++ [tip])%list (leaves t ++ leaves g)%list.
-Proof. exact Proofs.IndexEditOps.graft_tables. Qed.
+Proof. exact Proofs.IndexEditDeg.graft_tables'. Qed.
 Print Assumptions graft_tables.
 
 Theorem insert_identical_tables : forall t t' idx groups,
     good t -> (forall x, In x (leaves t) -> In x idx) -> ~ In ""%string idx ->
     Forall (fun g => ~ In ""%string g) groups ->
-    insert_identical t idx groups = Ok t' -> 2 <= degree t' ->
+    insert_identical t idx groups = Ok t' ->
     good t' /\ tables_describe t'.
-Proof. exact Proofs.IndexEditOps.insert_identical_tables. Qed.
+Proof. exact Proofs.IndexEditDeg.insert_identical_tables'. Qed.
 Print Assumptions insert_identical_tables.
 
 Theorem nni_tables : forall t r t',
-    good t -> In r (nni_list t) -> Model.NNI.apply r t = Some t' -> 2 <= degree t' ->
+    good t -> In r (nni_list t) -> Model.NNI.apply r t = Some t' ->
     good t' /\ tables_describe t' /\ Permutation (leaves t) (leaves t').
-Proof. exact Proofs.IndexEditOps.nni_tables. Qed.
+Proof. exact Proofs.IndexEditDeg.nni_tables'. Qed.
 Print Assumptions nni_tables.
 
 Theorem outgroup_tables : forall strict t names t',
@@ -541,3 +543,58 @@ Theorem row_bitset_words : forall t ec r,
               wb_ok w /\ to_bits w = r_bits r.
 Proof. exact Proofs.BitsetWords.row_bitset_words. Qed.
 Print Assumptions row_bitset_words.
+
+(** * Last round *)
+
+(** the root never loses a neighbour in RemoveEdges, hence in the three Collapse operations *)
+Theorem remove_edges_degree : forall rr rt sel t, wf t = true -> degree t <= degree (remove_edges rr rt sel t).
+Proof. exact Proofs.IndexEditDeg.remove_edges_degree. Qed.
+Print Assumptions remove_edges_degree.
+
+(** SubTree (another tip set): the copy of the subtree of a node with at least two children *)
+Theorem subtree_tables : forall t i s,
+    good t -> subtree t i = Some s -> 2 <= degree s ->
+    good s /\ tables_describe s /\ exists node, nth_error (nodes t) i = Some node /\ leaves s = leaves node.
+Proof. exact Proofs.IndexEditDeg.subtree_tables. Qed.
+Print Assumptions subtree_tables.
+
+(** the operation alphabet of Model/History.v *)
+Theorem C04_after_any_edit : forall o t t', Model.History.run_op o t = Ok t' -> good t' -> tables_describe t'.
+Proof. exact Proofs.IndexHistory.C04_after_any_edit. Qed.
+Print Assumptions C04_after_any_edit.
+
+(** ... and the result is a good tree as soon as the input is one, the operation's side
+    condition of Proofs/History.v holds and [edit_pre] (root with an inner child for UnRoot /
+    RerootOutGroup of a rooted tree; two tips left for RemoveTips; a good graft / second tree
+    on disjoint taxa; a node with two children for SubTree; Rename is not covered: its
+    [edit_pre] is the conclusion) *)
+Theorem C04_after_any_edit_good : forall o t t',
+    good t -> Proofs.History.side (false, o) t -> Proofs.IndexHistory.edit_pre o t t' ->
+    Model.History.run_op o t = Ok t' ->
+    good t' /\ tables_describe t'.
+Proof. exact Proofs.IndexHistory.C04_after_any_edit_good. Qed.
+Print Assumptions C04_after_any_edit_good.
+
+(** the hash map and the split index under the real load-factor policy (0.75, as modelled by
+    Model/Compare.v [need75]) never panic within 2^62 operations, for every initial capacity *)
+Theorem hashmap_total_real_policy :
+  forall (K V : Type) (hash : K -> N) (eqb : K -> K -> bool) (ok : K -> Prop),
+    (forall a b, ok a -> ok b -> eqb a b = true -> eqb b a = true) ->
+    (forall a b c, ok a -> ok b -> ok c -> eqb a b = true -> eqb b c = true -> eqb a c = true) ->
+    (forall a b, ok a -> ok b -> eqb a b = true -> hash a = hash b) ->
+    forall (cap : N) (ops : list (Model.HashMap.op K V)),
+      (cap < W64)%N -> ops_ok K V ok ops -> (N.of_nat (length ops) <= 2 ^ 62)%N ->
+      Model.HashMap.run K V hash eqb need75 (new_hashmap K V cap) ops <> None.
+Proof. exact Proofs.HashMap.hashmap_total_real_policy_gen. Qed.
+Print Assumptions hashmap_total_real_policy.
+
+Theorem edgeindex_total_real_policy : forall (L : list string) cap ops,
+    (cap < W64)%N -> eiops_ok L ops -> (N.of_nat (length ops) <= 2 ^ 62)%N ->
+    ei_run need75 (new_edge_index cap) ops <> None.
+Proof. exact Proofs.EdgeIndex.edgeindex_total_real_policy_gen. Qed.
+Print Assumptions edgeindex_total_real_policy.
+
+(** the policy as a bound on the number of entries, for other clients of Proofs/HashMap.v *)
+Theorem need75_no_overflow : no_overflow_upto need75 (2 ^ 62).
+Proof. exact Proofs.HashMap.need75_upto. Qed.
+Print Assumptions need75_no_overflow.
